@@ -51,8 +51,83 @@ def positional(rnd, n, kinds):
             acts.append({"a": "mutant", "s": slot, "t": t, "b": lvl, "seed": rnd.getrandbits(48)})
         # let the honest client run into whatever the mutants left behind
         acts += [{"a": "honest", "s": slot}] * 2
-        out.append({"cfg": {"kind": rnd.choice(kinds), "reuse": rnd.random() < 0.3, "nmods": 1, "policy": "none", "seed": rnd.getrandbits(62)}, "actions": acts})
+        out.append({"cfg": {"kind": rnd.choice(kinds), "enc": rnd.choice([1, 1, 2]), "reuse": rnd.random() < 0.3, "nmods": 1, "policy": "none", "seed": rnd.getrandbits(62),
+                            "served": rnd.choice(["all", "all", "all", "rv", "owner", "mfg"])}, "actions": acts})
     return out
+
+
+def sweep_behaviour(proto, k, dev, t, level, idx, cfg):
+    """Honest prefix of k messages of proto, then sweep mutant number idx of message type t."""
+    acts, slot = [], 1
+    if proto == "TO1":
+        acts += [{"a": "start", "s": 1, "p": "TO0", "d": dev}, {"a": "honest", "s": 1}]
+        slot = 2
+    acts.append({"a": "start", "s": slot, "p": proto, "d": dev})
+    acts += [{"a": "honest", "s": slot}] * max(0, k - 1)
+    acts.append({"a": "mutant", "s": slot, "t": t, "b": level, "seed": idx})
+    if t == 22 and level == "sweeps":
+        # a registration accepted from a re-signed mutant is then used by the device
+        acts += [{"a": "start", "s": 2, "p": "TO1", "d": dev}, {"a": "honest", "s": 2}]
+    else:
+        acts += [{"a": "honest", "s": slot}]
+    return {"cfg": cfg, "actions": acts}
+
+
+def sweep_positions():
+    """(proto, honest prefix length, message type, level) for every client message of every protocol."""
+    out = []
+    for proto, steps in PROTO_STEPS.items():
+        for k, t in enumerate(steps):
+            if t == 68 and k > 4:
+                continue
+            out.append((proto, k, t, "sweep"))
+            if t in (66, 68, 70):
+                out.append((proto, k, t, "sweepp"))     # plaintext mutated, then protected with the session keys
+            if t in (22, 32, 64):
+                out.append((proto, k, t, "sweeps"))     # authenticated part mutated, authentication repaired
+    return out
+
+
+def sweep(ctx, rnd, kinds, budget):
+    """Deterministic single-point structural sweep (cb.Sweep) of every client message: a probe run per
+    (position, level, key kind, key encoding) learns how many mutants the message has; then all of
+    them (thorough) or a seeded sample of `budget` (quick) are delivered, each after an honest prefix
+    in a fresh world."""
+    worlds = []
+    for k in kinds:
+        for enc in server_family.ENC_FOR[k]:
+            worlds.append({"kind": k, "enc": enc, "reuse": False, "nmods": 1, "policy": "none"})
+    probes = []
+    for w in worlds:
+        for (proto, k, t, level) in sweep_positions():
+            cfg = dict(w, seed=rnd.getrandbits(62))
+            probes.append(sweep_behaviour(proto, k, "new" if proto == "DI" else "dA", t, level, 0, cfg))
+    evs = run_metered(ctx, probes, "probe")
+    counts = {}
+    for e in evs:
+        if e["kind"] == "reset":
+            cur = e
+        elif e["kind"] == "mutant" and "n=" in (e.get("note") or ""):
+            b = cur["actions"]
+            m = next(a for a in b if a["a"] == "mutant")
+            counts[(cur["cfg"]["kind"], cur["cfg"]["enc"], m["t"], m["b"])] = int(e["note"].rsplit("n=", 1)[1])
+    total = sum(counts.values())
+    ctx.notes["sweep_mutants_total"] = total
+    if not counts:
+        raise Inconclusive("sweep probes produced no mutant counts")
+    todo = []
+    for w in worlds:
+        for (proto, k, t, level) in sweep_positions():
+            n = counts.get((w["kind"], w["enc"], t, level), 0)
+            for idx in range(n):
+                todo.append((w, proto, k, t, level, idx))
+    if budget and len(todo) > budget:
+        todo = rnd.sample(todo, budget)
+    behaviours = [sweep_behaviour(proto, k, "new" if proto == "DI" else "dA", t, level, idx, dict(w, seed=rnd.getrandbits(62)))
+                  for (w, proto, k, t, level, idx) in todo]
+    ctx.notes["sweep_mutants_executed"] = len(behaviours)
+    ctx.log("structural sweep: %d single-point mutants in %d (position, world) cells; executing %d" % (total, len(counts), len(behaviours)))
+    return evs + run_metered(ctx, behaviours, "sweep")
 
 
 def run_metered(ctx, behaviours, label, procs=12):
@@ -82,7 +157,13 @@ def run_metered(ctx, behaviours, label, procs=12):
         return evs
     with ThreadPoolExecutor(max_workers=procs) as ex:
         parts = list(ex.map(job, range(len(chunks))))
-    return [e for p in parts for e in p]
+    # run numbers stay unique across calls
+    off = getattr(ctx, "_run_offset", 0)
+    out = [e for p in parts for e in p]
+    for e in out:
+        e["run"] += off
+    ctx._run_offset = max([e["run"] for e in out] or [off]) + 1
+    return out
 
 
 def instruments(ctx, evs):
@@ -130,6 +211,9 @@ def run(ctx):
     behaviours += positional(rnd, 1500 if quick else 40000, kinds)
     ctx.log("%d behaviours with mutants" % len(behaviours))
     evs = run_metered(ctx, behaviours, "srv")
+    # (b2) deterministic structural sweep of every client message
+    sw = sweep(ctx, rnd, ["P256", "RSA2048RESTR"] if quick else kinds, 4000 if quick else 0)
+    evs += sw
     muts = [e for e in evs if e["kind"] == "mutant"]
     clean, nbad = instruments(ctx, evs)
     n = server_family.validate(ctx, "C10", clean, "c10")
@@ -142,13 +226,41 @@ def run(ctx):
                 level = "plain" if (role == "TO2" and p >= 65 and i % 2 == 0) else "wire"
                 cases.append({"role": role, "pos": p, "nth": (i % 2 if p == 69 else 0), "level": level, "seed": rnd.getrandbits(48),
                               "kind": kinds[i % len(kinds)] if i % 4 == 0 else "P256"})
+    # deterministic structural sweep of every response position (wire, plaintext in the tunnel, and the
+    # owner-signed payloads of 61 / 65 re-signed)
+    cells = []
+    for kind in (["P256", "RSA2048RESTR"] if quick else kinds):
+        for enc in server_family.ENC_FOR[kind]:
+            for role, poss in (("DI", [11, 13]), ("TO0", [21, 23]), ("TO1", [31, 33]), ("TO2", [61, 63, 65, 67, 69, 71])):
+                for p in poss:
+                    levels = ["wire"] + (["plain"] if role == "TO2" and p >= 65 else []) + (["signed"] if p in (61, 65) else [])
+                    for level in levels:
+                        cells.append({"role": role, "pos": p, "nth": 0, "level": level, "kind": kind, "enc": enc, "sweep": True})
+    wdp = ctx.sub("c10-cli-probe")
+    with open(os.path.join(wdp, "cases.json"), "w") as f:
+        json.dump([dict(c, seed=0) for c in cells], f)
+    ctx.run_vh(["cli-mutate", "-in", os.path.join(wdp, "cases.json"), "-out", os.path.join(wdp, "events.ndjson")], timeout=3300)
+    pevs = read_ndjson(os.path.join(wdp, "events.ndjson"))
+    todo = []
+    for c, e in zip(cells, sorted(pevs, key=lambda e: e["run"])):
+        m = re.search(r"n=(\d+)", e.get("what") or "")
+        if e.get("hit") and m:
+            todo += [dict(c, seed=i) for i in range(1, int(m.group(1)))]
+    ctx.notes["client_sweep_mutants_total"] = len(todo) + len(cells)
+    budget = 3000 if quick else 0
+    if budget and len(todo) > budget:
+        todo = rnd.sample(todo, budget)
+    ctx.notes["client_sweep_mutants_executed"] = len(todo) + len(cells)
+    ctx.log("client sweep: %d single-point mutants over %d (position, level, world) cells; executing %d" % (
+        ctx.notes["client_sweep_mutants_total"], len(cells), len(todo) + len(cells)))
+    cases += todo
     wd = ctx.sub("c10-cli")
     cp = os.path.join(wd, "cases.json")
     with open(cp, "w") as f:
         json.dump(cases, f)
     ep = os.path.join(wd, "events.ndjson")
     ctx.run_vh(["cli-mutate", "-in", cp, "-out", ep], timeout=3300)
-    cevs = read_ndjson(ep)
+    cevs = read_ndjson(ep) + pevs
     ok_lines = []
     for e in cevs:
         if e["outcome"] == "setup":
